@@ -1277,7 +1277,15 @@ impl LSMIterator for TransactionRangeIterator<'_> {
 			self.is_key_equal = false;
 
 			if !self.snapshot_iter.valid() || !self.ws_valid() {
-				self.seek_ws_first();
+				// A side that ran off the backward end holds only keys after the
+				// current one: put THAT side back on its first entry and leave the
+				// other side where it is.
+				if !self.ws_valid() {
+					self.seek_ws_first();
+				}
+				if !self.snapshot_iter.valid() {
+					self.snapshot_iter.seek_first()?;
+				}
 			} else if self.current_source == CurrentSource::Snapshot {
 				self.advance_ws();
 			} else {
@@ -1324,7 +1332,15 @@ impl LSMIterator for TransactionRangeIterator<'_> {
 			self.is_key_equal = false;
 
 			if !self.snapshot_iter.valid() || !self.ws_valid() {
-				self.seek_ws_last();
+				// A side that ran off the forward end holds only keys before the
+				// current one: put THAT side back on its last entry and leave the
+				// other side where it is.
+				if !self.ws_valid() {
+					self.seek_ws_last();
+				}
+				if !self.snapshot_iter.valid() {
+					self.snapshot_iter.seek_last()?;
+				}
 			} else if self.current_source == CurrentSource::Snapshot {
 				self.advance_ws();
 			} else {
